@@ -406,6 +406,89 @@ func ruleAcceptAgree(c *Ctx, r *Rep, tier string) {
 	r.Check(why == "", rule, "bam.parseAux#array-subtypes", c.Pos(walker.Pos()), "array element types let through = decoded = "+byteSet(specS), why)
 }
 
+// ---- DST-FITS --------------------------------------------------------------------------
+
+// ruleDstFits: hex.Decode(dst, src) writes DecodedLen(len(src)) bytes and panics
+// if dst is shorter. Every call in the library has a destination made for the
+// source (make([]byte, hex.DecodedLen(len(src)))), or a fixed array and a
+// dominating comparison that bounds the source's decoded length by the array's.
+// (An @SQ M5 value of more than 32 hex digits made NewHeader panic.)
+func ruleDstFits(c *Ctx, r *Rep, tier string) {
+	rule := "DST-FITS"
+	n := 0
+	sameSrc := func(a, b ssa.Value) bool {
+		a, b = stripConv(a), stripConv(b)
+		return a == b || sameExpr(a, b, 0)
+	}
+	for _, fn := range c.SrcFuncs() {
+		for _, f := range withAnon(fn) {
+			bc := &boundsCtx{c: c, fn: f}
+			idx := 0
+			allInstrs(f, func(ins ssa.Instruction) {
+				call, ok := ins.(*ssa.Call)
+				if !ok || calleeFullName(&call.Call) != "encoding/hex.Decode" {
+					return
+				}
+				n++
+				idx++
+				r.Instance(rule, 1)
+				key := c.FnName(f) + "#hex.Decode"
+				if idx > 1 {
+					key += fmt.Sprintf("~%d", idx)
+				}
+				dst, src := call.Call.Args[0], call.Call.Args[1]
+				// the decoded lengths of this source computed in f
+				var decLens, lens []ssa.Value
+				allInstrs(f, func(x ssa.Instruction) {
+					cl, ok := x.(*ssa.Call)
+					if !ok {
+						return
+					}
+					if arg, isLen := isLenCall(cl); isLen && sameSrc(arg, src) {
+						lens = append(lens, cl)
+					}
+					if calleeFullName(&cl.Call) == "encoding/hex.DecodedLen" {
+						if inner, ok := cl.Call.Args[0].(*ssa.Call); ok {
+							if arg, isLen := isLenCall(inner); isLen && sameSrc(arg, src) {
+								decLens = append(decLens, cl)
+							}
+						}
+					}
+				})
+				how := ""
+				switch d := dst.(type) {
+				case *ssa.MakeSlice:
+					for _, dl := range decLens {
+						if d.Len == dl {
+							how = "destination made with hex.DecodedLen(len(src))"
+						}
+					}
+				case *ssa.Slice:
+					if pt, ok := d.X.Type().Underlying().(*types.Pointer); ok && d.Low == nil && d.High == nil {
+						if at, ok := pt.Elem().Underlying().(*types.Array); ok {
+							for _, dl := range decLens {
+								if bc.upperBound(dl, call.Block(), 0) <= at.Len() {
+									how = fmt.Sprintf("decoded length ≤ %d on every way to the call", at.Len())
+								}
+							}
+							for _, l := range lens {
+								if bc.upperBound(l, call.Block(), 0) <= 2*at.Len()+1 {
+									how = fmt.Sprintf("len(src) ≤ %d on every way to the call", 2*at.Len()+1)
+								}
+							}
+						}
+					}
+				}
+				r.Check(how != "", rule, key, c.Pos(call.Pos()), how, "hex.Decode into a destination that is not shown to hold DecodedLen(len(src)) bytes: a longer value than expected panics (index out of range) instead of giving an error")
+			})
+		}
+	}
+	if n == 0 {
+		r.Instance(rule, 1)
+		r.Fail(rule, "module#hex.Decode", "-", "no call of hex.Decode found: the rule's anchor is gone (undecided)")
+	}
+}
+
 // ---- SHIFT-FITS ------------------------------------------------------------------------
 
 // ruleShiftFits: in the CSI reader every shift by a computed amount is shown to
